@@ -81,6 +81,12 @@ impl<T> SendError<T> {
     }
 }
 
+fn shuttle_yield() {
+    if sim::in_execution() && !std::thread::panicking() {
+        simsync::sim::scheduling_point();
+    }
+}
+
 pub fn bounded<T>(cap: usize) -> (Sender<T>, Receiver<T>) {
     assert!(cap > 0, "zero-capacity (rendezvous) channels are not modelled");
     let core = sim::register_chan(std::any::type_name::<T>(), cap);
@@ -154,6 +160,14 @@ impl<T> Sender<T> {
     pub fn is_empty(&self) -> bool {
         self.len() == 0
     }
+    pub fn is_full(&self) -> bool {
+        // a look at shared state: a scheduling point, like every other channel operation
+        shuttle_yield();
+        self.len() >= self.chan.core.0.cap
+    }
+    pub fn capacity(&self) -> Option<usize> {
+        Some(self.chan.core.0.cap)
+    }
 }
 impl<T> Clone for Sender<T> {
     fn clone(&self) -> Self {
@@ -215,6 +229,13 @@ impl<T> Receiver<T> {
     }
     pub fn is_empty(&self) -> bool {
         self.len() == 0
+    }
+    pub fn is_full(&self) -> bool {
+        shuttle_yield();
+        self.len() >= self.chan.core.0.cap
+    }
+    pub fn capacity(&self) -> Option<usize> {
+        Some(self.chan.core.0.cap)
     }
 }
 impl<T> Clone for Receiver<T> {
